@@ -346,3 +346,28 @@ def c02_12(ctx, r):
     from .c12 import c12_4
 
     c12_4(ctx, r)
+
+
+@rule(P, "C02.13", "T6+T3", "a queue entry reports itself complete only where an outcome is recorded for it", min_obligations=2)
+def c02_13(ctx, r):
+    """JobQueue releases the dependents of an entry as soon as is_complete() answers True.  `_is_complete = True` is therefore stored only in the
+    functions that also record the entry's result in the same breath - cancel() (CANCELED row) - while a started process completes through
+    _complete() (FINISHED row).  A third place that sets the flag (a launch error handled in run(), say) releases every unflagged dependent
+    although the blocker has no recorded outcome."""
+    ACC = "AsyncCliCommand"
+    n = 0
+    for f2, node, attr, t, kind in attr_stores(ctx, {"_is_complete"}):
+        if f2.cls is None or f2.cls.name != ACC:
+            continue
+        st = ctx.stmt_of(f2, node)
+        val = ctx.src(st.value) if isinstance(st, ast.Assign) else None
+        if val == "False":
+            continue
+        n += 1
+        appends = [s for s in ctx.cg.sites_in(f2) if s.calls_short(ctx.ix, "ResultsAggregator.append")]
+        r.check(bool(appends), f"{f2.short} sets _is_complete where it records a result", key_of(f2, "complete without a recorded outcome"), f2.loc(node),
+                f"{f2.short} sets `_is_complete = {val}` but records no result (no ResultsAggregator.append in it): the queue takes the entry for finished and releases its dependents, although the "
+                "job has no outcome - a dependent not flagged cancel-on-failure starts after a blocker that never ran", "no job starts before each of its blockers has a recorded result")
+    if n < 1:
+        raise AnalysisError("C02.13", "no store of _is_complete = True found in AsyncCliCommand")
+    r.ok("writers of AsyncCliCommand._is_complete enumerated")
